@@ -215,7 +215,7 @@ package plugin
 //@ func Register
 //@ props C18
 //@ may_panic true
-//@ requires defaultRegistry != nil && defaultRegistry.typeToNameReg != nil
+//@ env [the-default-registry-is-created-at-package-initialisation] defaultRegistry != nil && defaultRegistry.typeToNameReg != nil
 //@ at call DefaultRegistry().Register assert [same-arguments] arg(pluginType) == pluginType0 && arg(name) == name0 && arg(constructor) == newPluginImpl0 && arg(defaultConfigOptional) == defaultConfigOptional0
 
 //@ func DefaultRegistry
